@@ -7,6 +7,7 @@ the table (`read_rangeGood`, `Proofs/Decode/BdsNN.lean`); this file states the c
 -/
 import Rs1090.Proofs.Decode.AllGood
 import Rs1090.Props.C01
+import Rs1090.Proofs.F64Track09
 namespace Rs1090.Props.C08
 open Rs1090 Rs1090.Model Rs1090.Model.Message
 
@@ -59,6 +60,66 @@ example : (specFor (key! "track").id).isSome ∧ (specFor (key! "heading").id).i
 example : Json.inRangeObj [(key! "track", jrat 360 1)] = false := by decide
 example : Json.inRangeObj [(key! "bds30", .obj [(key! "threat_bearing", jnat 363)])] = false := by decide
 example : Json.inRangeObj [(key! "track", jrat 3599 10)] = true := by decide
+
+/-! ### the angles in binary64 (IEEE-754 round-to-nearest-even, `fl64` of `Proofs/IeeeRound.lean`)
+
+The model above holds exact rationals / symbolic nodes.  What the f64 code adds is ROUNDING, and the one place where
+rounding could leave the range is the wrap `h + 360.` of a tiny negative angle (`−1e-14 + 360. == 360.`).  The
+theorems below are about `fl64`; lemmas in `Proofs/F64Wrap.lean`, `Proofs/F64Track09.lean`. -/
+
+open Rs1090.Proofs.IeeeRound Rs1090.Proofs.F64Wrap Rs1090.Proofs.F64Track09 in
+/-- **The sharp threshold of the wrap**: for a non-positive angle `h` (any rational, in particular any binary64
+    value) the IEEE sum `h + 360.` is exactly 360.0 iff `|h| ≤ 2⁻⁴⁵` degrees (2.8·10⁻¹⁴); for `−360 ≤ h < −2⁻⁴⁵` it lies
+    in `[0, 360 − 2⁻⁴⁴]`. -/
+theorem wrap360_threshold (h : ℚ) (h0 : h ≤ 0) :
+    (fl64 (h + 360) = 360 ↔ -(1 / 2 ^ 45) ≤ h) ∧
+    (-360 ≤ h → h < -(1 / 2 ^ 45) → 0 ≤ fl64 (h + 360) ∧ fl64 (h + 360) ≤ 360 - 1 / 2 ^ 44) :=
+  ⟨wrap360_eq_iff h0, fun h1 h2 => ⟨(wrap360_range h1 h2).1, (wrap360_range h1 h2).2.2⟩⟩
+
+open Rs1090.Proofs.IeeeRound Rs1090.Proofs.F64Wrap Rs1090.Proofs.F64Track09 in
+/-- **BDS 0,9 ground track stays below 360.0 in binary64** — the former "argument, not a Lean theorem".
+    `ew`, `ns`: the exactly decoded integer components (`|ns| ≤ 4·1022`: everything subtypes 1 and 2 can carry,
+    `Props.C03.vel_component_bound`).  `h`: the binary64 value the code computes as
+    `libm::atan2(ew, ns) * (360.0 / (2.0 * PI))`.  **Hypothesis on libm, explicit** (`LibmAtan2Deg (1/200)`): `h` is
+    negative only if the exact angle is, and within 0.005° of it.  Then `if h < 0. { h + 360. } else { h }`, the
+    addition rounded to nearest-even, lies in `[0, 360 − 1/128]`. -/
+theorem track09_f64_below_360 (ew ns : Int) (hns : |ns| ≤ 4 * 1022) (h : ℚ) (H : LibmAtan2Deg (1 / 200) ew ns h) :
+    0 ≤ track09 fl64 h ∧ track09 fl64 h ≤ 360 - 1 / 128 ∧ track09 fl64 h < 360 :=
+  track09_ieee ew ns hns h H
+
+open Rs1090.Proofs.IeeeRound Rs1090.Proofs.F64Wrap in
+/-- the same from a hypothesis on `h` alone (no reals): `h ∈ [−181, 181]` and, when negative, `h ≤ −b` for ANY margin
+    `b > 2⁻⁴⁵` -/
+theorem track09_f64_range_of_margin (b h : ℚ) (hb : 1 / 2 ^ 45 < b) (H : AngleOk b h) :
+    0 ≤ track09 fl64 h ∧ track09 fl64 h < 360 :=
+  track09_range hb H
+
+open Rs1090.Proofs.IeeeRound Rs1090.Proofs.F64Wrap in
+/-- … and the margin hypothesis cannot be dropped: the negative angle `−2⁻⁴⁶`° wraps to exactly 360.0 -/
+theorem track09_f64_needs_margin : track09 fl64 (-(1 / 2 ^ 46)) = 360 := track09_needs_margin
+
+-- both hypotheses are satisfiable (due west: the negative arm; due north: the other)
+example : Rs1090.Proofs.F64Track09.LibmAtan2Deg (1 / 200) (-1) 0 (-90) := Rs1090.Proofs.F64Track09.libm_west
+example : Rs1090.Proofs.F64Track09.LibmAtan2Deg (1 / 200) 0 1 0 := Rs1090.Proofs.F64Track09.libm_north
+
+open Rs1090.Proofs.IeeeRound Rs1090.Proofs.F64Wrap in
+/-- **BDS 5,0 true track / BDS 6,0 magnetic heading** (`k as f64 * 90. / 512.`, `+ 360.` when negative; signed
+    11-bit `k`): all three f64 operations are EXACT for all 2048 codes, so the binary64 result is the rational
+    `((k·90) mod (360·512)) / 512` of the model (`Props.C03.track50_rt`), in `[0, 360 − 90/512]`. -/
+theorem angle11_f64_exact (k : Int) (h1 : -1024 ≤ k) (h2 : k < 1024) :
+    angle11 fl64 k = (((k * 90) % (360 * 512) : Int) : ℚ) / 512 ∧
+      0 ≤ angle11 fl64 k ∧ angle11 fl64 k ≤ 360 - 90 / 512 :=
+  angle11_exact k h1 h2
+
+open Rs1090.Proofs.IeeeRound Rs1090.Proofs.F64Wrap in
+/-- **BDS 0,6 ground track (`v as f64 * 360. / 128.`, 7 bits) and BDS 0,9 heading (`… / 1024.`, 10 bits)**: both f64
+    operations are exact, the result is `v·360/2ⁿ ∈ [0, 360)`; there is no wrap in the code. -/
+theorem angleU_f64_exact :
+    (∀ v : Nat, v < 2 ^ 7 → angleU fl64 7 v = (v : ℚ) * 360 / 128 ∧ 0 ≤ angleU fl64 7 v ∧ angleU fl64 7 v < 360) ∧
+    (∀ v : Nat, v < 2 ^ 10 → angleU fl64 10 v = (v : ℚ) * 360 / 1024 ∧ 0 ≤ angleU fl64 10 v ∧ angleU fl64 10 v < 360) := by
+  constructor <;> intro v hv
+  · have := angleU_exact 7 v (by norm_num) hv; norm_num at this ⊢; exact this
+  · have := angleU_exact 10 v (by norm_num) hv; norm_num at this ⊢; exact this
 
 /-- **No hidden state besides the reviewed one** in the decoder's files (`Props.C01.hidden_state_reviewed`, restated
     here because `accepted_in_range` is about the decoder as a function of the frame: a per-thread memo of decoded
